@@ -504,6 +504,10 @@ pub fn explore(prop: &str, thorough: bool, budget_s: f64, k_max: u32) -> (mc::St
             let mut vio = vec![];
             let mut smp = vec![];
             let m = monitors.clone();
+            // only the clauses read for this property (C02 reads C01's attribution clause)
+            let mut cfg = cfg.clone();
+            cfg.focus = if prop == "C02" { vec!["C02".to_string(), "C01".to_string()] } else { vec![prop.to_string()] };
+            let cfg = &cfg;
             let stats = mc::explore(&limits, |h: &[Ev]| rt::run(run_history_with(cfg, m.clone(), h, true, &d)), |v, _| vio.push(v), |h, o| {
                 let _ = o;
                 smp.push(format!("{:?}", h));
